@@ -554,6 +554,12 @@ Proof.
   { intros wld cs. apply J_set_cell; auto.
     - pose proof (J_b s I v) as B. exact B.
     - cbn [c_bound]. intros t' [= <-]. rewrite L1. exact Tt. }
+  assert (CS : forall wld cs, let s2 := set_cell s1 v (mkCell wld (Some t) (c_lower c) (c_upper c) cs) in
+               (forall x, x <> v -> cell_sem (cell_of s x) (cell_of s2 x)) /\
+               c_bound (cell_of s2 v) = Some t /\ c_lower (cell_of s2 v) = c_lower c /\
+               c_upper (cell_of s2 v) = c_upper c).
+  { intros wld cs s2. split; [|unfold s2; rewrite cell_of_set_cell_same by lia; cbn; auto].
+    intros x Ne. unfold s2. rewrite cell_of_set_cell_other by exact Ne. apply (proj2 E1). }
   clearbody s1.
   destruct t as [w|o args].
   - destruct (Nat.eqb v w) eqn:Evw.
@@ -562,6 +568,7 @@ Proof.
     + apply Nat.eqb_neq in Evw. unfold set_bound. apply tr_upd_cell. rewrite C1. cbn [c_wild c_lower c_upper c_cs].
       set (s2 := set_cell s1 v (mkCell false (Some (V w)) (c_lower c) (c_upper c) (c_cs c))).
       specialize (BS false (c_cs c)). specialize (IS false (c_cs c)). fold s2 in BS, IS.
+      specialize (CS false (c_cs c)). cbv zeta in CS. fold s2 in CS. destruct CS as (Cx & Cb & Clo & Cup).
       assert (L2 : len s2 = len s1) by (unfold s2; cbn; apply upd_length).
       clearbody s2.
       apply tr_modify. rewrite !(J_cs s2 IS). rewrite union_nil_l.
@@ -600,18 +607,21 @@ Proof.
       pose proof (good_trans _ _ _ _ _ (fun th => (forall l, c_lower c = Some l -> lbo l (th w)) /\
                                                (forall u, c_upper c = Some u -> ubo u (th w)))
                              G6 G7) as G57.
-      destruct G57 as (I7 & [L7 M7] & R7); [intros; split; assumption|].
-      split; [exact I7|split; [split; [lia|]|]].
-      * intros th S7. pose proof (M7 th S7) as S5. destruct (R7 th S7) as [Rl Ru].
+      destruct G57 as (I7 & [L7 M7] & F57 & R7); [intros; split; assumption|].
+      assert (M07 : forall th, sat th s7 -> sat th s).
+      { intros th S7. pose proof (M7 th S7) as S5. destruct (R7 th S7) as [Rl Ru].
         assert (S2 : sat th s2) by (eapply sat_semeq; eauto).
         destruct (BS th S2) as [Ev Back]. apply Back. cbn [den] in Ev. rewrite Ev.
-        split; assumption.
+        split; assumption. }
+      split; [exact I7|split; [split; [lia|exact M07]|split]].
+      * apply (fr_bind s s2 s5 s7 v (V w) Hb Cx Cb Clo Cup E25 F57 M07).
       * intros th S7. pose proof (M7 th S7) as S5.
         assert (S2 : sat th s2) by (eapply sat_semeq; eauto).
         destruct (BS th S2) as [Ev _]. exact Ev.
   - unfold set_bound. apply tr_upd_cell. rewrite C1. cbn [c_wild c_lower c_upper c_cs].
     set (s2 := set_cell s1 v (mkCell false (Some (O o args)) (c_lower c) (c_upper c) (c_cs c))).
     specialize (BS false (c_cs c)). specialize (IS false (c_cs c)). fold s2 in BS, IS.
+    specialize (CS false (c_cs c)). cbv zeta in CS. fold s2 in CS. destruct CS as (Cx & Cb & Clo & Cup).
     assert (L2 : len s2 = len s1) by (unfold s2; cbn; apply upd_length).
     clearbody s2.
     eapply tr_bind with (Q1 := fun _ s3 => J s3 /\ semeq s2 s3 /\ forall th, inb c (den th (O o args))).
@@ -641,9 +651,11 @@ Proof.
         split; [exact E24|]. intros th. split; intros x Hx; congruence.
     + intros _ s3 (I3 & E23 & Hin).
       eapply tr_conseq; [apply tr_cc; apply I3|]. cbv beta. intros _ s' ->.
-      split; [exact I3|split; [split; [destruct E23 as [L _]; lia|]|]].
-      * intros th S3. assert (S2 : sat th s2) by (eapply sat_semeq; eauto).
-        destruct (BS th S2) as [Ev Back]. apply Back. rewrite Ev. apply Hin.
+      assert (M03 : forall th, sat th s3 -> sat th s).
+      { intros th S3. assert (S2 : sat th s2) by (eapply sat_semeq; eauto).
+        destruct (BS th S2) as [Ev Back]. apply Back. rewrite Ev. apply Hin. }
+      split; [exact I3|split; [split; [destruct E23 as [L _]; lia|exact M03]|split]].
+      * apply (fr_bind s s2 s3 s3 v (O o args) Hb Cx Cb Clo Cup E23 (fr_refl s3) M03).
       * intros th S3. assert (S2 : sat th s2) by (eapply sat_semeq; eauto).
         destruct (BS th S2) as [Ev _]. exact Ev.
 Qed.
@@ -670,7 +682,7 @@ Proof.
   assert (K : forall th, sat th s1 -> lbo new (th v)).
   { intros th S1. apply sat_at_set_cell in S1; [|exact Lv]. cbn [c_bound] in S1.
     destruct S1 as [Sl _]. apply Sl. reflexivity. }
-  split; [exact I1|split; [split; [unfold s1; cbn; rewrite upd_length; lia|]|exact K]].
+  split; [exact I1|split; [split; [unfold s1; cbn; rewrite upd_length; lia|]|split; [apply fr_set_cell_unb; auto|exact K]]].
   intros th S1. eapply sat_set_cell_back; [exact S1|]. fold c. rewrite Hb.
   pose proof (K th S1) as Kl. apply sat_at_set_cell in S1; [|exact Lv]. cbn [c_bound] in S1.
   destruct S1 as [_ Su]. split.
@@ -761,7 +773,7 @@ Proof.
   assert (K : forall th, sat th s1 -> ubo new (th v)).
   { intros th S1. apply sat_at_set_cell in S1; [|exact Lv]. cbn [c_bound] in S1.
     destruct S1 as [_ Su]. apply Su. reflexivity. }
-  split; [exact I1|split; [split; [unfold s1; cbn; rewrite upd_length; lia|]|exact K]].
+  split; [exact I1|split; [split; [unfold s1; cbn; rewrite upd_length; lia|]|split; [apply fr_set_cell_unb; auto|exact K]]].
   intros th S1. eapply sat_set_cell_back; [exact S1|]. fold c. rewrite Hb.
   pose proof (K th S1) as Ku. apply sat_at_set_cell in S1; [|exact Lv]. cbn [c_bound] in S1.
   destruct S1 as [Sl _]. split.
@@ -849,10 +861,10 @@ Proof.
     try (apply tr_ret; apply good_refl; auto).
   inversion Fp as [|? ? Tp Fp']; subst.
   eapply tr_bind; [apply Fx; auto|]. cbv beta. intros r s1 (_ & G1).
-  destruct G1 as (I1 & [L1 M1] & R1).
+  destruct G1 as (I1 & [L1 M1] & F1 & R1).
   eapply tr_conseq; [apply IH; auto; eapply Forall_tg_mono; eauto|].
   cbv beta. intros _ s2 G2.
-  assert (G1 : good s (fun _ => True) s1) by (split; [auto|split; [split; auto|auto]]).
+  assert (G1 : good s (fun _ => True) s1) by (split; [auto|split; [split; auto|split; auto]]).
   eapply good_trans; [exact G1|exact G2|auto].
 Qed.
 
@@ -884,10 +896,10 @@ Proof.
            ++ rewrite Eu in Ex. injection Ex as <-. left. apply ole_refl.
         -- cbv beta. intros _ s1 G. eapply good_weaken; [exact G|auto].
     + apply fix_args; auto. apply (tg_args _ _ _ Ta).
-  - intros _ s1 G1. apply tr_gets_end. destruct G1 as (I1 & [L1 M1] & _).
+  - intros _ s1 G1. apply tr_gets_end. destruct G1 as (I1 & [L1 M1] & F1 & _).
     split.
     + apply tg_follow; auto. eapply tg_mono; eauto.
-    + split; [auto|split; [split; auto|]]. intros th S1.
+    + split; [auto|split; [split; auto|split; [auto|]]]. intros th S1.
       rewrite den_follow by exact S1. apply Da. auto.
 Qed.
 
@@ -1037,6 +1049,34 @@ Proof.
   unfold inb in *. rewrite alloc_var_lower, alloc_var_upper in Sv. exact Sv.
 Qed.
 
+Lemma fr_alloc s w : fr s (snd (alloc_var s w)).
+Proof.
+  constructor.
+  - intros x. rewrite alloc_var_bound. auto.
+  - intros x _. rewrite alloc_var_lower, alloc_var_upper. auto.
+  - intros x Hx. rewrite alloc_var_bound. congruence.
+Qed.
+
+(* refinement with frame, for the operations that allocate *)
+Definition lef (s s' : store) : Prop := le s s' /\ fr s s'.
+
+Lemma lef_refl s : lef s s.
+Proof. split; [apply le_refl|apply fr_refl]. Qed.
+
+Lemma lef_trans s1 s2 s3 : lef s1 s2 -> lef s2 s3 -> lef s1 s3.
+Proof.
+  intros [L1 F1] [L2 F2]. split; [eapply le_trans; eauto|eapply fr_trans; eauto; apply L2].
+Qed.
+
+Lemma lef_alloc s w : lef s (snd (alloc_var s w)).
+Proof. split; [apply le_alloc|apply fr_alloc]. Qed.
+
+Lemma lef_len s s' : lef s s' -> len s <= len s'.
+Proof. intros [[L _] _]. exact L. Qed.
+
+Lemma good_lef s R s' : good s R s' -> lef s s'.
+Proof. intros (_ & L & F & _). split; auto. Qed.
+
 Lemma tr_fresh {B} w (k : nat -> M B) s (Q : B -> store -> Prop) :
   tr (k (len s)) (snd (alloc_var s w)) Q -> tr (bindM (fresh w) k) s Q.
 Proof. intros T b s' E. apply T. exact E. Qed.
@@ -1050,16 +1090,16 @@ Lemma isvar_mono n m t : n <= m -> isvar n t -> isvar m t.
 Proof. intros L (v & -> & Lv). exists v. split; [reflexivity|lia]. Qed.
 
 Lemma fresh_list_good n : forall s, J s ->
-  tr (fresh_list n) s (fun env s' => J s' /\ le s s' /\ Forall (isvar (len s')) env /\ length env = n).
+  tr (fresh_list n) s (fun env s' => J s' /\ lef s s' /\ Forall (isvar (len s')) env /\ length env = n).
 Proof.
   induction n as [|n IH]; intros s I; cbn [fresh_list].
-  - apply tr_ret. split; [auto|split; [apply le_refl|split; [constructor|reflexivity]]].
-  - apply tr_fresh. pose proof (J_alloc s false I) as I1. pose proof (le_alloc s false) as L1.
+  - apply tr_ret. split; [auto|split; [apply lef_refl|split; [constructor|reflexivity]]].
+  - apply tr_fresh. pose proof (J_alloc s false I) as I1. pose proof (lef_alloc s false) as L1.
     pose proof (alloc_var_length s false) as Ln.
     set (s1 := snd (alloc_var s false)) in *. clearbody s1.
     eapply tr_bind; [apply IH; exact I1|]. cbv beta. intros r s2 (I2 & L2 & F2 & N2).
-    apply tr_ret. split; [auto|split; [eapply le_trans; eauto|split]].
-    + constructor; auto. exists (len s). split; [reflexivity|]. destruct L2 as [L2 _]. lia.
+    apply tr_ret. split; [auto|split; [eapply lef_trans; eauto|split]].
+    + constructor; auto. exists (len s). split; [reflexivity|]. apply lef_len in L2. lia.
     + cbn. lia.
 Qed.
 
@@ -1074,26 +1114,26 @@ Inductive styg (n : nat) : sty -> Prop :=
 | sg_O o args : length args = length (variance H o) -> Forall (styg n) args -> styg n (SOp o args).
 
 Definition ev_post (s : store) : tyv -> store -> Prop :=
-  fun r s' => J s' /\ le s s' /\ tg (len s') r.
+  fun r s' => J s' /\ lef s s' /\ tg (len s') r.
 
 Lemma eval_sty_good env : forall t s, J s -> Forall (tg (len s)) env -> styg (length env) t ->
   tr (eval_sty env t) s (ev_post s).
 Proof.
   induction t as [i| |o args IH] using sty_ind'; intros s I Fe St; cbn [eval_sty].
-  - apply tr_gets_end. split; [auto|split; [apply le_refl|]]. apply tg_follow; auto.
+  - apply tr_gets_end. split; [auto|split; [apply lef_refl|]]. apply tg_follow; auto.
     inversion St; subst. rewrite Forall_forall in Fe. apply Fe. apply nth_In. auto.
-  - apply tr_fresh. apply tr_ret. split; [apply J_alloc; auto|split; [apply le_alloc|]].
+  - apply tr_fresh. apply tr_ret. split; [apply J_alloc; auto|split; [apply lef_alloc|]].
     constructor. rewrite alloc_var_length. lia.
   - inversion St as [| |? ? La Fa]; subst.
-    eapply tr_bind with (Q1 := fun xs s1 => J s1 /\ le s s1 /\ Forall (tg (len s1)) xs /\ length xs = length args).
+    eapply tr_bind with (Q1 := fun xs s1 => J s1 /\ lef s s1 /\ Forall (tg (len s1)) xs /\ length xs = length args).
     + clear La St. revert s I Fe.
-      induction IH as [|a r Ha Hr IHr]; intros s I Fe; [apply tr_ret; split; [auto|split; [apply le_refl|split; [constructor|reflexivity]]]|].
+      induction IH as [|a r Ha Hr IHr]; intros s I Fe; [apply tr_ret; split; [auto|split; [apply lef_refl|split; [constructor|reflexivity]]]|].
       inversion Fa as [|? ? Sa Sr]; subst.
       eapply tr_bind; [apply Ha; auto|]. cbv beta. intros x s1 (I1 & L1 & Tx).
-      assert (Fe1 : Forall (tg (len s1)) env) by (eapply Forall_tg_mono; [apply L1|exact Fe]).
+      assert (Fe1 : Forall (tg (len s1)) env) by (eapply Forall_tg_mono; [apply (lef_len _ _ L1)|exact Fe]).
       eapply tr_bind; [apply IHr; auto|]. cbv beta. intros xs s2 (I2 & L2 & Fx & Nx).
-      apply tr_ret. split; [auto|split; [eapply le_trans; eauto|split]].
-      * constructor; auto. eapply tg_mono; [apply L2|exact Tx].
+      apply tr_ret. split; [auto|split; [eapply lef_trans; eauto|split]].
+      * constructor; auto. eapply tg_mono; [apply (lef_len _ _ L2)|exact Tx].
       * cbn. lia.
     + cbv beta. intros xs s1 (I1 & L1 & Fx & Nx). apply tr_ret.
       split; [auto|split; [auto|]]. constructor; auto. congruence.
@@ -1109,8 +1149,9 @@ Proof.
   { rewrite Ne. exact Sb. }
   cbv beta. intros body s2 (I2 & L2 & Tb).
   apply tr_ret_bind.
-  eapply tr_conseq; [apply fix_sound; auto|]. cbv beta. intros r s3 (Tr & I3 & L3 & _).
-  split; [auto|split; [|auto]]. eapply le_trans; [exact L1|]. eapply le_trans; eauto.
+  eapply tr_conseq; [apply fix_sound; auto|]. cbv beta. intros r s3 (Tr & G3).
+  split; [apply G3|split; [|auto]]. eapply lef_trans; [exact L1|]. eapply lef_trans; [exact L2|].
+  eapply good_lef; eauto.
 Qed.
 
 (* the semantic content of one application step *)
@@ -1120,6 +1161,10 @@ Definition StepSem (th : nat -> ty) (f x r : tyv) : Prop :=
 
 Lemma var_fun : variance H Function = [false; true].
 Proof. apply (wf_fun H W). Qed.
+
+Lemma good_of_lef s s' (R : (nat -> ty) -> Prop) :
+  J s' -> lef s s' -> (forall th, sat th s' -> R th) -> good s R s'.
+Proof. intros I [L F] HR. split; [auto|split; [auto|split; auto]]. Qed.
 
 Lemma apply_good fuel f0 x0 fixb s : J s -> tg (len s) f0 -> tg (len s) x0 ->
   tr (apply H fuel f0 x0 fixb) s
@@ -1132,10 +1177,10 @@ Proof.
   set (f := follow s f0) in *. set (x := follow s x0) in *. clearbody f x.
   eapply tr_bind with (Q1 := fun f' s1 => tg (len s1) f' /\ good s (fun th => den th f' = den th f) s1).
   - destruct f as [vf|o args]; [|apply tr_ret; split; [auto|apply good_refl; auto]].
-    apply tr_fresh. pose proof (J_alloc s false I) as I1. pose proof (le_alloc s false) as L1.
+    apply tr_fresh. pose proof (J_alloc s false I) as I1. pose proof (lef_alloc s false) as L1.
     pose proof (alloc_var_length s false) as N1.
     set (s1 := snd (alloc_var s false)) in *. clearbody s1.
-    apply tr_fresh. pose proof (J_alloc s1 false I1) as I2. pose proof (le_alloc s1 false) as L2.
+    apply tr_fresh. pose proof (J_alloc s1 false I1) as I2. pose proof (lef_alloc s1 false) as L2.
     pose proof (alloc_var_length s1 false) as N2.
     set (s2 := snd (alloc_var s1 false)) in *. clearbody s2.
     assert (Lv : vf < len s) by (inversion Tf; auto).
@@ -1143,12 +1188,12 @@ Proof.
     + constructor; [rewrite var_fun; reflexivity|].
       constructor; [constructor; lia|constructor; [constructor; lia|constructor]].
     + intros o args [= <- <-] Eb. apply basic_var in Eb. rewrite var_fun in Eb. discriminate.
-    + cbv beta. intros _ s3 (I3 & L3 & R3). apply tr_gets_end.
-      assert (L03 : le s s3) by (eapply le_trans; [exact L1|eapply le_trans; eauto]).
+    + cbv beta. intros _ s3 G3. apply tr_gets_end.
+      assert (L03 : lef s s3) by (eapply lef_trans; [exact L1|eapply lef_trans; [exact L2|eapply good_lef; eauto]]).
       split.
-      * apply tg_follow; auto. constructor. destruct L03 as [L _]. lia.
-      * split; [auto|split; [auto|]]. intros th S3. apply den_follow. exact S3.
-  - cbv beta. intros f' s1 (Tf' & G1). pose proof G1 as (I1 & [L1 M1] & R1).
+      * apply tg_follow; [apply G3|]. constructor. apply lef_len in L03. lia.
+      * apply good_of_lef; [apply G3|exact L03|]. intros th S3. apply den_follow. exact S3.
+  - cbv beta. intros f' s1 (Tf' & G1). pose proof G1 as (I1 & [L1 M1] & F1 & R1).
     assert (Tx1 : tg (len s1) x) by (eapply tg_mono; eauto).
     assert (TopCase : forall args, tg (len s1) (O Top args) -> f' = O Top args ->
               tg (len s1) (O Top []) /\ good s (fun th => StepSem th f0 x0 (O Top [])) s1).
@@ -1165,7 +1210,7 @@ Proof.
         destruct (tg_args _ _ _ Tf') as [_ Fa]. inversion Fa as [|? ? Tl Fa']; subst.
         inversion Fa' as [|? ? Tr _]; subst.
         eapply tr_bind; [apply unify_sound; auto|]. cbv beta. intros _ s2 G2.
-        pose proof G2 as (I2 & [L2 M2] & R2).
+        pose proof G2 as (I2 & [L2 M2] & F2 & R2).
         assert (Fin : forall r s3, tg (len s3) r -> good s2 (fun th => den th r = den th rgt) s3 ->
                   tg (len s3) r /\ good s (fun th => StepSem th f0 x0 r) s3).
         { intros r s3 Trr G3. split; [exact Trr|].
@@ -1213,7 +1258,7 @@ Proof.
   intros I Fv Pc. destruct Pc as [sc Nc Sb|f x b Lf Lx]; cbn [run_cmd].
   - eapply tr_bind; [apply instance_good; auto|]. cbv beta. intros t s1 (I1 & L1 & Tt).
     apply tr_ret. exists t. split; [reflexivity|split; [exact Tt|]].
-    split; [auto|split; [auto|]]. intros th _ f x r [].
+    apply good_of_lef; auto. intros th _ f x r [].
   - eapply tr_bind; [apply apply_good; auto using tg_val|]. cbv beta. intros t s1 (Tt & G1).
     apply tr_ret. exists t. split; [reflexivity|split; [exact Tt|]].
     eapply good_weaken; [exact G1|]. intros th _ St f' x' r' [[= <- <- <-]|[]]. exact St.
@@ -1229,40 +1274,30 @@ Proof. intros L. unfold val. apply app_nth1. exact L. Qed.
 Lemma val_app_new vals t ext : val (vals ++ t :: ext) (length vals) = t.
 Proof. unfold val. rewrite app_nth2 by lia. rewrite Nat.sub_diag. reflexivity. Qed.
 
-Lemma steps_of_range : forall cs n f x r, progP n cs -> In (f, x, r) (steps_of cs n) ->
-  f < r /\ x < r /\ n <= r.
-Proof.
-  induction cs as [|c cs IH]; intros n f x r P Hin; [destruct Hin|].
-  destruct P as [Pc Pr]. rewrite steps_of_cons in Hin by exact Pc.
-  apply in_app_or in Hin. destruct Hin as [Hin|Hin].
-  - destruct Pc as [sc _ _|f' x' b Lf Lx]; cbn in Hin; [destruct Hin|].
-    destruct Hin as [[= <- <- <-]|[]]. lia.
-  - destruct (IH _ _ _ _ Pr Hin) as (A & B & C). lia.
-Qed.
-
 Theorem run_cmds_good fuel : forall cs i vals s vals' s', J s -> Forall (tg (len s)) vals ->
   progP (length vals) cs -> run_cmds H fuel cs i vals s = (None, vals', s') ->
-  J s' /\ le s s' /\ Forall (tg (len s')) vals' /\ (exists ext, vals' = vals ++ ext) /\
+  J s' /\ lef s s' /\ Forall (tg (len s')) vals' /\ (exists ext, vals' = vals ++ ext) /\
   forall th, sat th s' -> forall f x r, In (f, x, r) (steps_of cs (length vals)) ->
     StepSem th (val vals' f) (val vals' x) (val vals' r).
 Proof.
   induction cs as [|c cs IH]; intros i vals s vals' s' I Fv P R; cbn [run_cmds] in R.
-  - inversion R; subst. split; [auto|split; [apply le_refl|split; [auto|split]]].
+  - inversion R; subst. split; [auto|split; [apply lef_refl|split; [auto|split]]].
     + exists []. rewrite app_nil_r. reflexivity.
     + intros th _ f x r [].
   - destruct P as [Pc Pr].
     pose proof (run_cmd_good fuel c vals s I Fv Pc) as T. unfold tr in T.
     destruct (run_cmd H fuel c vals s) as [vals1 s1|e s1] eqn:Ec; [|discriminate].
-    destruct (T vals1 s1 eq_refl) as (t & -> & Tt & I1 & L1 & R1).
+    destruct (T vals1 s1 eq_refl) as (t & -> & Tt & G1).
+    pose proof G1 as (I1 & L1 & F1 & R1).
     assert (Fv1 : Forall (tg (len s1)) (vals ++ [t])).
     { apply Forall_app. split; [eapply Forall_tg_mono; [apply L1|exact Fv]|constructor; auto]. }
     assert (Pr1 : progP (length (vals ++ [t])) cs) by (rewrite app_length; cbn; rewrite Nat.add_1_r; exact Pr).
     destruct (IH (S i) (vals ++ [t]) s1 vals' s' I1 Fv1 Pr1 R) as (I' & L' & Fv' & (ext & ->) & R').
-    split; [auto|split; [eapply le_trans; eauto|split; [auto|split]]].
+    split; [auto|split; [eapply lef_trans; [eapply good_lef; eauto|exact L']|split; [auto|split]]].
     + exists ([t] ++ ext). rewrite app_assoc. reflexivity.
     + intros th S' f x r Hin. rewrite steps_of_cons in Hin by exact Pc.
       apply in_app_or in Hin. destruct Hin as [Hin|Hin].
-      * pose proof (proj2 L' th S') as S1. specialize (R1 th S1 f x r Hin).
+      * pose proof (proj2 (proj1 L') th S') as S1. specialize (R1 th S1 f x r Hin).
         destruct Pc as [sc _ _|f' x' b Lf Lx]; cbn in Hin; [destruct Hin|].
         destruct Hin as [[= <- <- <-]|[]].
         rewrite <- app_assoc. cbn [app]. rewrite !val_app_l by lia. rewrite val_app_new. exact R1.
